@@ -1665,10 +1665,14 @@ the receiver, nothing happens.
 func (r *stack) lock() {
 	if r.canMutex() {
 		if mutex, found := r.mutex(); found {
+			mutex.Lock()
+
+			// lock bookkeeping is itself shared
+			// state: only touch it while holding
+			// the lock.
 			sc, _ := r.config()
 			_now := now()
 			sc.ldr = &_now
-			mutex.Lock()
 		}
 	}
 }
@@ -1681,9 +1685,9 @@ the receiver, nothing happens.
 func (r *stack) unlock() {
 	if r.canMutex() {
 		if mutex, found := r.mutex(); found {
-			mutex.Unlock()
 			sc, _ := r.config()
 			sc.ldr = nil
+			mutex.Unlock()
 		}
 	}
 }
